@@ -48,6 +48,17 @@ def binND (s : Nat) : List Nat → List K → List K
     let m := fineSize s rest
     (chunks s n (chunks m (n * s) v)).flatMap fun g => binND s rest (vsum m g)
 
+/-- number of samples of the fine array for per-axis factors `ss` (same order as `dims`) -/
+def fineSizes (ss dims : List Nat) : Nat := (List.zipWith (· * ·) dims ss).foldr (· * ·) 1
+
+/-- `statistic='sum'` binning with one factor per axis (`subsample_field(field, array)`, D180): `ss`
+lists the factors in the order of `dims` (slowest axis first, i.e. the reverse of `grid.dims`). -/
+def binNDs : List Nat → List Nat → List K → List K
+  | s :: ss, n :: rest, v =>
+    let m := fineSizes ss rest
+    (chunks s n (chunks m (n * s) v)).flatMap fun g => binNDs ss rest (vsum m g)
+  | _, _, v => v
+
 /-- the shape check `reshape` performs: the field must have exactly `fineSize` samples -/
 def binSum? (s : Nat) (dims : List Nat) (v : List K) : Option (List K) :=
   if v.length = fineSize s dims then some (binND s dims v) else none
@@ -67,6 +78,10 @@ variable {K : Type} [Add K] [Zero K] [Mul K] [Div K] [NatCast K]
 /-- `statistic='mean'` on a regular grid: the sum divided by the number of sub-pixels `s^d`. -/
 def binMean (s : Nat) (dims : List Nat) (v : List K) : List K :=
   (binND s dims v).map (· / ((s ^ dims.length : Nat) : K))
+
+/-- `statistic='mean'` with per-axis factors (regular grids): the sum divided by `Π ss` -/
+def binMeans (ss dims : List Nat) (v : List K) : List K :=
+  (binNDs ss dims v).map (· / ((ss.foldr (· * ·) 1 : Nat) : K))
 
 /-- `statistic='mean'` on a non-regular grid: weighted mean with the grid weights `w`. -/
 def binWMean (s : Nat) (dims : List Nat) (v w : List K) : List K :=
